@@ -24,12 +24,16 @@ RULE = ("valid stream: every task's valid (reference, estimate) generator incl. 
 ASSUMPTIONS = ["fault classes are those a validator names or raises for (DESIGN §5 C14 scope rule)",
                "NaN values and non-array containers are not fault classes of this property"]
 UNPROVED = ["totality of the metric bodies on valid input is a theorem for the validators (Props/C14.lean) and for the "
-            "models of melody, multipitch, transcription + transcription_velocity, the segment labelling metrics and "
-            "the chord interval scores (Props/C14_<Task>.lean, with the escapes of the unchanged code refuted from "
+            "models of melody, multipitch, transcription + transcription_velocity, the segment labelling metrics, "
+            "the chord interval scores, beat, boundary detection, pattern, alignment, onset, tempo and key "
+            "(Props/C14_<Task>.lean, with the escapes of the unchanged code refuted from "
             "witnesses: IndexError on empty melody series / short voicing arrays / empty chord reference / "
-            "out-of-range pairings, OverflowError on hop = 0); for the other tasks (beat, onset, boundary detection, "
-            "pattern, alignment, key, separation, chord.evaluate as a pipeline) it is established by the oracle only, "
-            "except where a task slice proves it"]
+            "out-of-range pairings, OverflowError on hop = 0; key: KeyError of the second split cannot escape, "
+            "C14_Key.weighted_score_errors); hierarchy: C17.tmeasure_total_partial; for separation and "
+            "chord.evaluate as a pipeline it is established by the oracle only",
+            "C14_Key is about MirModel/Key.lean's validateKey (regenerated from the source by the scalars_key "
+            "translator part of C04); that it equals the validator model keyValidateKey of Props/C14.lean is compared "
+            "(both against the real validate_key), not proved"]
 SUITES, _cl = SU.load_all(only=["validators"])
 
 
